@@ -23,7 +23,14 @@ fn main() {
             let cfg = common::Cfg::from_json(&cfg);
             let input = if nl < buf.len() { &buf[nl + 1..] } else { &[][..] };
             common::install_quiet_panic_hook();
-            let out = common::run_bytes(input, &cfg);
+            // like a library caller's thread: 2 MiB of stack
+            let input_owned = input.to_vec();
+            let out = std::thread::Builder::new()
+                .stack_size(2 * 1024 * 1024)
+                .spawn(move || common::run_bytes(&input_owned, &cfg))
+                .unwrap()
+                .join()
+                .unwrap_or(common::Outcome::Panic("thread died".into()));
             let mut so = std::io::stdout();
             match out {
                 common::Outcome::Ok(b) => {
@@ -39,6 +46,10 @@ fn main() {
                     so.write_all(e.as_bytes()).unwrap();
                 }
             }
+        }
+        "worker-c01" => {
+            let code = props::c01::worker(&args[2..]);
+            std::process::exit(code);
         }
         "replay" => {
             let path = args.get(2).expect("replay file");
